@@ -213,12 +213,12 @@ type taintHit struct {
 }
 
 type taintCtx struct {
-	c        *Ctx
-	callers  map[*ssa.Function][]*ssa.Call
-	fieldMem map[string][]taintHit
+	c         *Ctx
+	callers   map[*ssa.Function][]*ssa.Call
+	fieldMem  map[string][]taintHit
 	fieldBusy map[string]bool
-	stores   map[string][]*ssa.Store // T.F -> stores in scope
-	budget   int
+	stores    map[string][]*ssa.Store // T.F -> stores in scope
+	budget    int
 }
 
 func inTaintScope(p string) bool {
